@@ -72,8 +72,8 @@ func run(tapeJSON json.RawMessage, res *core.Result) {
 	gk.Seed(tp.RunSeed)
 	net := world.NewNet()
 	net.MultiTask = true
-	sim := refkdc.New("SIM.TEST", tp.RunSeed, refkdc.Policy{MaxLifeS: tp.LifeS, MaxRenewS: tp.RenewS, CopyAddresses: true, RequirePreauth: tp.Preauth})
-	other := refkdc.New("OTHER.TEST", tp.RunSeed+1, refkdc.Policy{MaxLifeS: tp.LifeS, CopyAddresses: true})
+	sim := refkdc.New("SIM.TEST", tp.RunSeed, refkdc.Policy{MaxLifeS: tp.LifeS, MaxRenewS: tp.RenewS, CopyAddresses: true, RequirePreauth: tp.Preauth, ExpiryGraceS: tp.GraceS})
+	other := refkdc.New("OTHER.TEST", tp.RunSeed+1, refkdc.Policy{MaxLifeS: tp.LifeS, CopyAddresses: true, ExpiryGraceS: tp.GraceS})
 	refkdc.Link(sim, other)
 	for _, s := range spns[:5] {
 		sim.AddService(s)
